@@ -121,6 +121,7 @@ class Interp:
         self.feas_checks = 0
         self.cur_func = []
         self.volatile = {}          # (id(obj), field) -> reader: fields written by other threads (rely)
+        self.write_hooks = {}       # (id(obj), field) -> hook called at every assignment in the code under contract
         self.loop_entry_stack = []
         self.undo_log = []
         from . import models
@@ -150,6 +151,7 @@ class Interp:
             self.old_mode = 0
             self.cur_func = []
             self.volatile = {}
+            self.write_hooks = {}
             self.loop_entry_stack = []
             for d_, k_, old_ in reversed(self.undo_log):
                 d_[k_] = old_
@@ -1673,6 +1675,9 @@ class Interp:
                     self.raise_builtin('AttributeError', "can't set attribute '%s'" % name)
                 self.call(v.fset, [obj, value], {})
                 return
+            wh = getattr(self, 'write_hooks', None)
+            if wh and not self.spec_mode and (id(obj), name) in wh:
+                wh[(id(obj), name)](self, obj, name, value)
             obj.attrs[name] = value
         elif isinstance(obj, FuncObj):
             obj.attrs[name] = value
@@ -1991,6 +1996,27 @@ class Interp:
         return _MISSING
 
     def dict_get(self, d, key, default=None, raise_missing=False):
+        if self.spec_mode and self.is_symkey(key) and not raise_missing and not isinstance(key, tuple):
+            # inside a specification nothing may fork: d.get(key) over scalar values is an if-then-else chain over the keys present
+            dd = self.read_dict(d)
+            conds = []
+            for k in dd:
+                if isinstance(k, tuple):
+                    conds = None
+                    break
+                r = self.equals(k, key)
+                conds.append((k, r))
+            if conds is not None and any(not isinstance(r, bool) for _, r in conds):
+                vals = [dd[k] for k, _ in conds] + [default]
+                kinds = {kind_of(v) for v in vals if v is not None}
+                if len(kinds) == 1 and all(v is not None for v in vals) and next(iter(kinds)) in ('int', 'real', 'bool', 'str', 'atom'):
+                    kd = next(iter(kinds))
+                    out = to_term(default, kd)
+                    for k, r in reversed(conds):
+                        rt = r if not isinstance(r, SymVal) else r.t
+                        rt = z3.BoolVal(rt) if isinstance(rt, bool) else rt
+                        out = z3.If(rt, to_term(dd[k], kd), out)
+                    return mk(out, kd)
         k = self.dict_find(d, key)
         if k is _MISSING:
             if raise_missing:
